@@ -269,6 +269,58 @@ def scen_run_vs_step(cfg):
     return scenario
 
 
+def worker_reset(cfg, tier):
+    """episode isolation at the data level: the real _reset()/reset() leave no residue of a previous episode in any queue or counter
+    (all deque attributes are discovered by reflection, so a queue that is no longer re-created is noticed)"""
+    import jax
+    from collections import deque
+    from rex import base
+    from rex.constants import Async, Clock
+    from vlib import asyncsym, pysym
+
+    V = pysym.Vars(concrete={})
+    rec = asyncsym.Recorder()
+    snd = asyncsym.mk_node(V, rec, "snd", 20)
+    rcv = asyncsym.mk_node(V, rec, "rcv", 10)
+    c = asyncsym.mk_conn(V, rec, snd, rcv, blocking=cfg["blocking"])
+    ws = [snd, rcv, c]
+    # a dirty previous episode: junk in every queue, advanced counters
+    for w in ws:
+        for k, v in list(vars(w).items()):
+            if isinstance(v, deque):
+                v.extend([("stale", k, 1), ("stale", k, 2)])
+        w._tick = 17
+        w._state = Async.STOPPED
+        w._jit_reset = lambda rng: ("dist_state", "fresh")
+    c._prev_recv_sc = 3.25
+    snd._phase_scheduled = rcv._phase_scheduled = 0.5
+
+    class GS:
+        step_state = {"snd": base.StepState(rng=jax.random.PRNGKey(1), state="s", params="p", inputs={}, eps=0, seq=0, ts=0.0),
+                      "rcv": base.StepState(rng=jax.random.PRNGKey(2), state="s", params="p", inputs={"snd": "window"}, eps=0, seq=0, ts=0.0)}
+
+    eps_before = [snd._eps, rcv._eps]
+    for w in (snd, rcv):
+        w._reset(GS, clock=Clock.SIMULATED, real_time_factor=0)
+    bad = []
+    for name, w in (("snd", snd), ("rcv", rcv), ("conn", c)):
+        for k, v in vars(w).items():
+            if isinstance(v, deque) and k != "_q_task" and len(v) > 0:
+                bad.append(f"{name}.{k} still holds {len(v)} items of the previous episode")
+        if w._tick != 0:
+            bad.append(f"{name}._tick == {w._tick}")
+    if c._prev_recv_sc != 0.0:
+        bad.append("conn._prev_recv_sc not reset")
+    if snd._phase_scheduled != 0.0 or rcv._phase_scheduled != 0.0:
+        bad.append("_phase_scheduled not reset")
+    if [snd._eps, rcv._eps] != [e + 1 for e in eps_before]:
+        bad.append("episode counter not advanced by one")
+    ok = not bad
+    return [Ob("a reset wrapper starts from empty queues, tick 0, drift 0, FIFO clamp 0 and the next episode number", "unsat" if ok else "sat", 0, cfg, trivial=True,
+               replayed=(not ok) or None, detail=str(bad[:4]), key="reset-residue",
+               what=f"state of a previous episode survives reset(): {bad[:3]} -- the next episode is no longer a function of the graph and the initial graph state")]
+
+
 def ownership_table():
     """AST pass over rex/asynchronous.py: which methods append to / pop from every queue attribute, and on which executor they run"""
     import rex.asynchronous as A
@@ -367,6 +419,8 @@ def run(rep):
     obs = []
     normal = [c for c in cfgs if c["kind"] != "orders"]
     obs += pmap("props.c02", "worker", normal, rep.tier)
+    rep.encode(N._reset, W.reset)
+    obs += pmap("props.c02", "worker_reset", [dict(blocking=False), dict(blocking=True)], rep.tier, serial=True)
     orders = [c for c in cfgs if c["kind"] == "orders"]
     if orders:
         obs += pmap("props.c01", "worker_orders", orders, rep.tier)
